@@ -134,7 +134,7 @@ Inductive ending : Type :=
 
 Section Traj.
   Variable routers : N -> router.
-  Variable host_ip : N -> N.                       (* the address host i listens on *)
+  Variable accepts : N -> N -> bool.               (* host i has a listen binding for this destination *)
   Variable topo : N -> N -> N -> option node.      (* router, slot, next-hop ip -> who gets the frame *)
 
   Fixpoint traj (fuel : nat) (at_ : node) (p : pkt) : list hopobs * ending :=
@@ -142,7 +142,7 @@ Section Traj.
     | O => ([], EFuel)
     | S f =>
         match at_ with
-        | NHost h => if host_ip h =? p_dst p then ([], EDelivered h) else ([], EHostDrop h)
+        | NHost h => if accepts h (p_dst p) then ([], EDelivered h) else ([], EHostDrop h)
         | NRouter r =>
             match route_step (routers r) p with
             | Panic s => ([], EPanic r s)
@@ -177,7 +177,8 @@ Record rcfg : Type := mkRcfg {
   rc_nets : list N }.           (* network index of each Pci slot *)
 Record hcfg : Type := mkHcfg {
   hc_net : N; hc_ip : N;
-  hc_mask : N; hc_gw : N }.     (* SubnetInfo { mask, default_gateway } of the host's Arp *)
+  hc_mask : N; hc_gw : N;       (* SubnetInfo { mask, default_gateway } of the host's Arp *)
+  hc_wild : bool }.             (* the application listens on 0.0.0.0 instead of the host's address *)
 Record cfg : Type := mkCfg {
   c_mtus : list N;              (* per network *)
   c_routers : list rcfg;
@@ -187,7 +188,7 @@ Definition net_mtu (c : cfg) (n : N) : N :=
   match nthN (c_mtus c) n with Some m => m | None => 65535 end.
 
 Definition dummy_rcfg : rcfg := mkRcfg [] [] [].
-Definition dummy_hcfg : hcfg := mkHcfg 0 0 0 0.
+Definition dummy_hcfg : hcfg := mkHcfg 0 0 0 0 false.
 
 Definition cfg_rc (c : cfg) (r : N) : rcfg :=
   match nthN (c_routers c) r with Some x => x | None => dummy_rcfg end.
@@ -197,6 +198,9 @@ Definition cfg_router (c : cfg) (r : N) : router :=
 Definition cfg_hc (c : cfg) (h : N) : hcfg :=
   match nthN (c_hosts c) h with Some x => x | None => dummy_hcfg end.
 Definition cfg_host_ip (c : cfg) (h : N) : N := hc_ip (cfg_hc c h).
+(* ipv4.rs:219-229 / udp.rs:134-145: the exact binding, else the 0.0.0.0 binding (which takes ANY destination) *)
+Definition cfg_accepts (c : cfg) (h dst : N) : bool :=
+  hc_wild (cfg_hc c h) || (hc_ip (cfg_hc c h) =? dst).
 
 Definition memN (x : N) (l : list N) : bool := existsb (N.eqb x) l.
 
@@ -230,7 +234,7 @@ Definition cfg_topo (c : cfg) (r slot nh : N) : option node :=
   end.
 
 Definition cfg_trajectory (c : cfg) (start : node) (p : pkt) : list hopobs * ending :=
-  trajectory (cfg_router c) (cfg_host_ip c) (cfg_topo c) start p.
+  trajectory (cfg_router c) (cfg_accepts c) (cfg_topo c) start p.
 
 (* the sending host: arp.rs:192-198 (off-subnet traffic goes to the default gateway) *)
 Definition host_next_hop (h : hcfg) (dst : N) : N :=
